@@ -34,13 +34,16 @@ PROPS = {
         "assumed": [],
     },
     "C13": {
-        "verus": [("manager", [SM + "get_direct", SM + "tic_toc", SM + "increment_metric"]), ("tree_node", [TN + "determine_node_to_get", TN + "get_appropriate_tree_node_from_storage", "TreeNode.get_from_storage", "TreeNode.get_child_label", "TreeNode.get_child_node"]),
+        "verus": [("manager", [SM + "get_direct", SM + "tic_toc", SM + "increment_metric", SM + "write_committed_records"]), ("tree_node", [TN + "determine_node_to_get", TN + "get_appropriate_tree_node_from_storage", "TreeNode.get_from_storage", "TreeNode.get_child_label", "TreeNode.get_child_node"]),
                   ("directory_lookup", ["Directory.poll_for_azks_changes", "Directory.lookup", "Directory.batch_lookup", "Directory.key_history__head", "Directory.key_history__tail",
                                         "Directory.create_single_update_proof", "Directory.get_epoch_hash", "Directory.audit", "Directory.retrieve_azks", "Clone for Directory.clone", "Azks.get_latest_epoch", "lemma_the_info"]),
                   ("azks_audit", ["Azks.get_root_hash_safe", "Azks.get_root_hash", "Directory.get_epoch_hash", "Azks.get_latest_epoch", "NodeLabel.root", "NodeLabel.new"])],
         "search": True,
         "always_search": True,
-        "scope": "partial: one iteration of the change poller follows the protocol exclusive lock -> flush -> reload of the epoch record -> change signal (the flush requires the exclusive lock to have been taken, the signal requires flush and reload: knowledge tokens of one loop iteration); request handlers read the epoch record THROUGH the object cache (retrieve_azks; a direct read is a permission only the poller holds), a clone of a directory shares the cache lock and the storage manager of the original (so the poller's exclusive lock on a clone excludes the original's readers); reads of the epoch record are modelled as NONDETERMINISTIC (a publish may complete between two of them), and lookup / batch_lookup / key_history (head, every update proof, tail) / audit / get_epoch_hash take the epoch, the state filter, every tree proof and the root hash of an answer from ONE value of that record (never a proof stitched together from two epochs, whatever the interleaving with publishes); the as-of read of a node record never returns a node newer than the epoch asked for (so no answer stitches a newer node into an older epoch); a child a node names but whose record holds only newer versions (reader behind storage) is an error for get_child_node, never an absent child (else the proof walk would return a proof that misses a subtree); the read returns the latest "
+        "bounded_search": [{"obligation": "replay/c13#races_and_lagging_readers",
+                            "bound": "fixed two/three-epoch histories, both configurations: a lookup / key_history on an uncached instance with another instance's publish running right AFTER and right BEFORE its read of the epoch record; a fresh reader "
+                                     "served right after the storage operation that carries the epoch record of a commit; a read-only directory lagging 0..3 (thorough: 6) epochs behind storage, with and without cache"}],
+        "scope": "partial: a commit hands ALL its records to the database in ONE storage operation with the epoch record last (manager/write_committed_records#E_commit), so no reader can see the new epoch record without the records it announces; one iteration of the change poller follows the protocol exclusive lock -> flush -> reload of the epoch record -> change signal (the flush requires the exclusive lock to have been taken, the signal requires flush and reload: knowledge tokens of one loop iteration); request handlers read the epoch record THROUGH the object cache (retrieve_azks; a direct read is a permission only the poller holds), a clone of a directory shares the cache lock and the storage manager of the original (so the poller's exclusive lock on a clone excludes the original's readers); reads of the epoch record are modelled as NONDETERMINISTIC (a publish may complete between two of them), and lookup / batch_lookup / key_history (head, every update proof, tail) / audit / get_epoch_hash take the epoch, the state filter, every tree proof and the root hash of an answer from ONE value of that record (never a proof stitched together from two epochs, whatever the interleaving with publishes); the as-of read of a node record never returns a node newer than the epoch asked for (so no answer stitches a newer node into an older epoch); a child a node names but whose record holds only newer versions (reader behind storage) is an error for get_child_node, never an absent child (else the proof walk would return a proof that misses a subtree); the read returns the latest "
                  "node whenever it is not newer, and otherwise only NotFound; get_epoch_hash answers (e, h) with e the latest epoch of the ONE epoch record it read and h the root hash of the "
                  "root node as of that very e (get_root_hash_safe refuses any epoch other than the record's). Interleavings, the change poller and the cache are not decided.",
         "trusted": ["T6 async functions are verified under single-task sequential semantics; a storage read is a function of (manager, key) during one call",
@@ -229,7 +232,7 @@ PROPS = {
     "C15": {
         "verus": [("manager", [SM + "get_user_state", SM + "compare_db_and_transaction_records", SM + "commit_transaction", SM + "is_transaction_active",
                                SM + "tic_toc", SM + "increment_metric", "DbRecord.transaction_priority", SM + "get_user_state_versions",
-                               SM + "get_from_cache_only", SM + "get", SM + "batch_get", "lemma_merge"])],
+                               SM + "get_from_cache_only", SM + "get", SM + "batch_get", "lemma_merge", SM + "set", SM + "batch_set", SM + "write_committed_records", "Clone for StorageManager.clone"])],
         "kani": ["c15"],
         "search": True,
         "always_search": True,
@@ -263,7 +266,7 @@ PROPS = {
     },
     "C11": {
         "verus": [("tree_node", [TN + "determine_node_to_get", TN + "get_appropriate_tree_node_from_storage", TN + "write_to_storage", "TreeNode.write_to_storage", "lemma_rot"]),
-                  ("manager", [SM + "commit_transaction", SM + "tic_toc", SM + "increment_metric", "DbRecord.transaction_priority"]),
+                  ("manager", [SM + "commit_transaction", SM + "write_committed_records", SM + "tic_toc", SM + "increment_metric", "DbRecord.transaction_priority"]),
                   "azks_insert", ("directory_lookup", ["Directory.get_lookup_info", "Directory.build_lookup_info", "get_marker_version", "Azks.get_latest_epoch", "Directory.key_history__head", "lemma_mask_is_filter", "Directory.poll_for_azks_changes"])],
         "scope": "partial, record level: TreeNode::write_to_storage writes exactly {label, latest: self, previous: as-of(stored, epoch-1) or None when new}, and concludes 'no previous version' only from a NotFound answer (any other read failure fails the write); the poller of a cached instance compares the storage's epoch with the epoch the instance SERVES (a read through the cache), so an instance whose cache was filled before the epoch record arrived does flush it (last sentence of the property); rotation lemma: that record still "
                  "serves the as-of-(E) node at E and serves the new node at E+1; readers select by target epoch; the batch a commit hands to the database is non-empty only with the epoch "
